@@ -112,6 +112,9 @@ def sync(need_coq=True):
             rc, out = sh([DRIVER, "-out", os.path.join(BUILD, "tables.json"), "dump"], timeout=120)
             if rc != 0:
                 raise BrokenTie("table-dump", out[-3000:])
+            rc, out = sh([DRIVER, "-out", os.path.join(BUILD, "rows.json"), "rows"], timeout=600)
+            if rc != 0:
+                raise BrokenTie("translator", out[-3000:])
             rc, out = sh([sys.executable, os.path.join(VERIF, "harness", "translate", "translate.py")], timeout=300)
             if rc != 0:
                 raise BrokenTie("translator", out[-3000:])
